@@ -14,5 +14,9 @@ CHECK = dict(
             dict(name="quic", run="^TestVerifC06QUIC$", quick=4000, thorough=200000, shards_thorough=6),
             dict(name="quic-cuts", run="^TestVerifC06QUICCuts$", quick=0, thorough=0),
         ]),
+        dict(name="forward", dir=D + "/forward", src="C06/forward", runs=[
+            dict(name="readmsg", run="^TestVerifC06UpstreamRead$", quick=4000, thorough=200000, shards_thorough=6),
+            dict(name="exchange", run="^TestVerifC06UpstreamExchange$", quick=600, thorough=20000, shards_thorough=4),
+        ]),
     ],
 )
